@@ -214,6 +214,12 @@ class Normaliser(ast.NodeTransformer):
             e = e.args[0]
         return e
 
+    def visit_Return(self, node):
+        self.generic_visit(node)
+        if isinstance(node.value, ast.Constant) and node.value.value is None:
+            node.value = None           # `return None` is `return`
+        return node
+
     def visit_If(self, node):
         node.test = self._unbool(node.test)
         self.generic_visit(node)
